@@ -188,20 +188,20 @@ func versionUnits(role, kind string, stamp uint64) []uint64 {
 	return nil
 }
 
-// currentOwn: the duties the node would report right now for the operator's own validators in
-// epoch / period u (what a fetch at this moment would return, restricted to in-committee validators).
-func (w *world) currentOwn(u uint64) map[dkey]bool {
+// ownDuties: the duties the node reports under assignment version ver for the operator's own validators
+// (current validator set) in epoch / period u.
+func (w *world) ownDuties(u uint64, ver int) map[dkey]bool {
 	out := map[dkey]bool{}
 	switch w.p.Role {
 	case "attester":
 		for _, i := range w.commIdx() {
-			if s, ok := attSlot(w.p.Seed, w.ver[u], u, uint64(i)); ok {
+			if s, ok := attSlot(w.p.Seed, ver, u, uint64(i)); ok {
 				out[dkey{uint64(i), s}] = true
 			}
 		}
 	case "proposer":
 		for s := u * slotsPerEpoch; s < (u+1)*slotsPerEpoch; s++ {
-			if v := proposerAt(w.p.Seed, w.ver[u], s); v != 0 && w.isComm(v) {
+			if v := proposerAt(w.p.Seed, ver, s); v != 0 && w.isComm(v) {
 				out[dkey{v, s}] = true
 			}
 		}
